@@ -397,6 +397,84 @@ def k3_snapshot(rep: Report) -> None:
         rep.candidate(key, f"{kind}.{attr}: {m}", m, replay)
 
 
+# --- K4: which triggers DependencyVisitor.add_dependency refuses to record
+LIBRARY_MODULES = ["builtins", "typing", "mypy_extensions", "typing_extensions"]
+
+
+def k4_add_dependency(rep: Report) -> None:
+    from vf.bstr import bstr
+
+    K = Kernel("mypy.server.deps", ["DependencyVisitor.add_dependency"], closure=False)
+    rep.kernels_from(K)
+    fn = K["DependencyVisitor.add_dependency"]
+    ctx = Ctx()
+    found: dict[str, Any] = {}
+    n = {"kept": 0, "dropped": 0}
+
+    def body(c: Ctx) -> None:
+        trig = bstr(c, "trigger", 22, minlen=1)
+        recorded: list = []
+
+        class Map:
+            def setdefault(self, k: Any, d: Any) -> Any:
+                recorded.append(k)
+                return d
+
+        class Scope:
+            @staticmethod
+            def current_target() -> str:
+                return "m.f"
+
+        class Self:
+            map = Map()
+            scope = Scope
+
+        fn(Self(), trig)
+        kept = bool(recorded)
+        n["kept" if kept else "dropped"] += 1
+        # comment in the function: only dependencies *to the library modules* builtins, typing,
+        # mypy_extensions, typing_extensions are not tracked; the trigger of a name defined in
+        # module M is "<M.name...>"
+        is_library = z3.Or(*[trig.startswith("<" + m + ".").t for m in LIBRARY_MODULES])
+        if kept:
+            ok = c.check(z3.Not(is_library), "recorded => not a library-module trigger")
+        else:
+            ok = c.check(is_library, "dropped => the trigger names something inside one of the four library modules")
+        if not ok and c.cex:
+            m = c.cex[-1].model
+            found.setdefault("add_dependency drops a trigger that does not belong to builtins/typing/mypy_extensions/typing_extensions" if not kept else "add_dependency records a library-module trigger", (None, m, kept))
+
+    ctx.explore(body)
+    rep.add_ctx("K4 deps.DependencyVisitor.add_dependency", ctx, outcomes=dict(n))
+    rep.twin("K4: kept and dropped both reached", n["kept"] > 0 and n["dropped"] > 0)
+    for key, (tv, m, kept) in found.items():
+        rep.sample({"kernel": "add_dependency", "class": key, "model": m})
+
+        def replay(d: str, m: dict = m, kept: bool = kept) -> tuple[bool, str]:
+            import mypy.server.deps as D
+
+            t = m.get("trigger")
+            if not isinstance(t, str):
+                return False, f"no concrete trigger in the model: {m}"
+
+            class Scope:
+                @staticmethod
+                def current_target() -> str:
+                    return "m.f"
+
+            class Self:
+                map: dict = {}
+                scope = Scope
+
+            o = Self()
+            o.map = {}
+            D.DependencyVisitor.add_dependency(o, t)  # type: ignore[arg-type]
+            lib = any(t.startswith("<" + x + ".") for x in LIBRARY_MODULES)
+            return (t in o.map) == lib, f"trigger {t!r}: {'recorded' if t in o.map else 'dropped'}; belongs to a library module: {lib}"
+
+        rep.candidate(key, f"trigger {m.get('trigger')!r}", m, replay)
+
+
 def main(args: Any) -> int:
     rep = Report(PID, args.tier, "symbolic execution (symx/z3) of the real change-detection and snapshot-diff functions; stat values, clocks, hashes, snapshot contents symbolic; replay through an in-process dmypy Server vs a fresh mypy run")
     only = set(args.only.split(",")) if args.only else None
@@ -407,6 +485,7 @@ def main(args: Any) -> int:
         "K2: two snapshots over names {a,b} (thorough {a,b,c}), kinds {Var, Func, TypeInfo}, opaque payload tokens, one level of nested class table with one member",
     ]
     rep.bounds.append("K3: one symbol m.x per table, node kinds Var / FuncDef / TypeInfo / module reference / cross-module reference; symbol kind, module_public, module_hidden and the boolean externally visible attributes of the node symbolic on both sides; types and signatures fixed")
+    rep.bounds.append("K4: any trigger string of 1..22 printable ASCII characters")
     rep.assumptions += [
         "environment contract: a content change changes the file size or its real-valued mtime (documented in FileSystemWatcher's docstring); equal content has equal size",
         "hash equality = content equality",
@@ -418,6 +497,8 @@ def main(args: Any) -> int:
         k2_astdiff(rep, args.tier)
     if only is None or "K3" in only:
         k3_snapshot(rep)
+    if only is None or "K4" in only:
+        k4_add_dependency(rep)
     return rep.finish()
 
 
